@@ -87,6 +87,9 @@ func (f *fakeRW) take(n int) (int, error) {
 }
 func (f *fakeRW) Write(p []byte) (int, error) { return f.take(len(p)) }
 
+// WriteString: the underlying writer is an io.StringWriter too (net/http's is)
+func (f *fakeRW) WriteString(s string) (int, error) { return f.take(len(s)) }
+
 type fakeFlusher struct{ *fakeRW }
 
 func (f fakeFlusher) Flush() { f.flushes++ }
@@ -156,6 +159,8 @@ func runProxy(c *PCase) (string, bool) {
 				} else {
 					io.Copy(w, bytes.NewReader(make([]byte, op.N)))
 				}
+			case "ws":
+				io.WriteString(w, strings.Repeat("s", op.N)) // what templates and fmt.Fprint-style helpers end up calling
 			case "rfhuge":
 				// a body of op.N bytes streamed from a source that never materialises it
 				src := io.LimitReader(zeros{}, int64(op.N))
@@ -217,8 +222,8 @@ func runProxy(c *PCase) (string, bool) {
 			if !sent {
 				wantStatus, sent = op.N, true
 			}
-		case "w", "rf", "rfplain", "rfhuge":
-			if op.K != "w" && op.N == 0 && c.Caps != "full" {
+		case "w", "ws", "rf", "rfplain", "rfhuge":
+			if op.K != "w" && op.K != "ws" && op.N == 0 && c.Caps != "full" {
 				continue // io.Copy of an empty reader makes no call on the ResponseWriter
 			}
 			if !sent {
@@ -269,7 +274,7 @@ func TestProxyExhaustive(t *testing.T) {
 	if ev.Thorough() {
 		maxLen = 5
 	}
-	alpha := []POp{{"wh", 200}, {"wh", 404}, {"wh", 600}, {"wh", 101}, {"w", 3}, {"w", 0}, {"rf", 5}, {"rfplain", 6}, {"flush", 0}, {"hijack", 0}}
+	alpha := []POp{{"wh", 200}, {"wh", 404}, {"wh", 600}, {"wh", 101}, {"w", 3}, {"w", 0}, {"rf", 5}, {"rfplain", 6}, {"ws", 2}, {"flush", 0}, {"hijack", 0}}
 	var n, nt int64
 	for _, caps := range []string{"basic", "flusher", "full", "nearfull"} {
 		for _, acc := range []int{-1, 0, 4, 7} {
@@ -321,13 +326,13 @@ func TestProxyRapid(t *testing.T) {
 		c := &PCase{Caps: rapid.SampledFrom([]string{"basic", "flusher", "full", "nearfull"}).Draw(rt, "caps"), Accept: rapid.SampledFrom([]int{-1, -1, 0, 1, 10, 100, 5000}).Draw(rt, "accept")}
 		n := rapid.IntRange(0, 20).Draw(rt, "n")
 		for i := 0; i < n; i++ {
-			k := rapid.SampledFrom([]string{"wh", "w", "w", "rf", "rfplain", "flush", "hijack", "closenotify", "header"}).Draw(rt, "k")
+			k := rapid.SampledFrom([]string{"wh", "w", "w", "ws", "rf", "rfplain", "flush", "hijack", "closenotify", "header"}).Draw(rt, "k")
 
 			op := POp{K: k}
 			switch k {
 			case "wh":
 				op.N = rapid.SampledFrom([]int{200, 201, 204, 301, 304, 400, 404, 500, 503, 101, 103, 599, 600, 799, 999}).Draw(rt, "code")
-			case "w", "rf", "rfplain":
+			case "w", "ws", "rf", "rfplain":
 				op.N = rapid.SampledFrom([]int{0, 1, 2, 100, 4096, 70000}).Draw(rt, "bytes")
 			}
 			c.Ops = append(c.Ops, op)
